@@ -1038,6 +1038,7 @@ class HttpPayloadParser:
                             set_exception(self.payload, exc)
                             raise exc
                         self._chunk_tail = chunk
+                        self._paused = False
                         return PayloadState.PAYLOAD_NEEDS_INPUT, b""
 
                 # read chunk and feed buffer
@@ -1076,6 +1077,7 @@ class HttpPayloadParser:
                         raise exc
                     else:
                         self._chunk_tail = chunk
+                        self._paused = False
                         return PayloadState.PAYLOAD_NEEDS_INPUT, b""
 
                 if self._chunk == ChunkState.PARSE_TRAILERS:
@@ -1088,6 +1090,7 @@ class HttpPayloadParser:
                             set_exception(self.payload, exc)
                             raise exc
                         self._chunk_tail = chunk
+                        self._paused = False
                         return PayloadState.PAYLOAD_NEEDS_INPUT, b""
 
                     line = chunk[:pos]
@@ -1131,6 +1134,8 @@ class HttpPayloadParser:
                 self._eof_pending = False
                 return PayloadState.PAYLOAD_COMPLETE, b""
 
+        # Nothing is pending in the parser: a pause request made while feeding is void
+        self._paused = False
         return PayloadState.PAYLOAD_NEEDS_INPUT, b""
 
 
